@@ -175,6 +175,15 @@ func (hc *HeaderChain) WriteHeader(header *types.Header) (status WriteStatus, er
 	// Second clause in the if statement reduces the vulnerability to selfish mining.
 	// Please refer to http://www.cs.cornell.edu/~ie53/publications/btcProcFC.pdf
 	if externTd.Cmp(localTd) > 0 || (externTd.Cmp(localTd) == 0 && mrand.Float64() < 0.5) {
+		// The ancestry must be present down to the first header that is already canonical
+		// (a rewind may have removed part of a stored side chain): check before touching the index
+		for h, n := header.ParentHash, number-1; GetCanonicalHash(hc.chainDb, n) != h; {
+			ancestor := hc.GetHeader(h, n)
+			if ancestor == nil {
+				return NonStatTy, consensus.ErrUnknownAncestor
+			}
+			h, n = ancestor.ParentHash, n-1
+		}
 		// Delete any canonical number assignments above the new head
 		for i := number + 1; ; i++ {
 			hash := GetCanonicalHash(hc.chainDb, i)
